@@ -196,6 +196,14 @@ def check_kill_on_timeout(ctx: Ctx, oid: str) -> None:
             elt, defs = rets[0]
         ob.require(elt[0] == "tuple" and len(elt) == 3, "terminate: (terminate, kill) pair not found")
         fj, fk = resolve_func(elt[1], defs, repo), resolve_func(elt[2], defs, repo)
+        if (fj is None or fk is None) and where is not ft and where.cls is not None:
+            # the pair is made of bound methods of a small job object (`(self.join_wait, self.kill)`)
+            def _meth(t_):
+                if t_[0] == "sym" and t_[1].startswith("self.") and t_[1].count(".") == 1:
+                    m_ = repo.lookup_method(where.cls, t_[1][5:])
+                    return repo.func(m_.qualname).node if m_ is not None else None
+                return None
+            fj, fk = fj or _meth(elt[1]), fk or _meth(elt[2])
         ob.site(where, e.node, "(term, kill) pair", pair=[show(elt[1]), show(elt[2])])
         ob.require(fj is not None and fk is not None, "terminate: the functions of the (terminate, kill) pair do not resolve to local functions")
         # a closure created per element must bind the element *now* (partial, default argument): a lambda/def that merely
